@@ -24,8 +24,9 @@ ASSUMPTIONS = ["CAM/VAM instants are the virtual times at which the BTPDataReque
                "floor(ms) clock readings, so 'at least T elapsed' is judged from T + 10 us (T + 1.5 ms when an instant lies exactly on a "
                "millisecond boundary) and 'less than T' up to T - 1.5 ms",
                "T_GenCam adaptation and N_GenCam are not modelled; only the bounds of the statement are",
-               "key of vam-gap-min = which dynamics differ between the two triggering reports (speed, heading, position, none) or "
-               "'unavailable-field' when the previous VAM carried an unavailable code",
+               "key of vam-gap-min = the trigger whose threshold the second report crosses against the CONTENT of the previous VAM "
+               "(position in degrees / speedValue/100 / heading value/10, in the service's order; 'unavailable-field' when it is crossed only "
+               "because that VAM carried the element's unavailable code), or 'time-branch' when none is crossed",
                "CAM max gap is suspended while no position report arrived for more than two report periods and across injected send errors",
                "a report without lat/lon is not a position report: it creates no obligation to send",
                "VBS activation = creation of the VRU service and subscription to the location service (the service has no start/stop API)",
@@ -102,18 +103,24 @@ def judge(sim: FacSim, h: History) -> list:
     trace = []
     if cfg.get("timer_late_us") or cfg.get("timer_early_us"):
         sim.probe("timer-jitter-run")
+        sim.fault("timer_early_late")
     for o in sim.plan["ops"]:
         if o["op"] == "tpv":
             sim.probe("fields:" + o.get("cls", "full"))
+            if o.get("cls", "full") != "full":
+                sim.fault("gnss_sparse")
             if o["tpv"].get("track") == 360.0:
                 sim.probe("track-360-offered")
     gaps = h.report_gaps(nominal_us)
     if len(gaps) > 1 and any(b - a > nominal_us for a, b in gaps[1:]):
         sim.probe("report-gap")
+        sim.fault("gnss_gap", sum(1 for a, b in gaps[1:] if b - a > nominal_us))
     if len(h.ca_acts) > 1:
         sim.probe("ca-restart", len(h.ca_acts) - 1)
+        sim.fault("service_restart", len(h.ca_acts) - 1)
     if len(h.vru_acts) > 1:
         sim.probe("vru-restart", len(h.vru_acts) - 1)
+        sim.fault("service_restart", len(h.vru_acts) - 1)
     for e in sim.log:
         if e["k"] == "svc":
             trace.append(("svc", e["svc"], e["action"]))
@@ -294,6 +301,8 @@ def _judge_content(sim, m, gdt, refpos, typ) -> None:
 
 # ------------------------------------------------------------------------------------------------ VAM
 def _vam_kind(a: dict, b: dict) -> str:
+    """Abstract-trace label of a VAM: which dynamics differ between the reports of two consecutive VAMs (distinctness measure only;
+    the finding key of `vam-gap-min` is `_vam_branch`)."""
     if not ("speed" in a and "track" in a and is_position_report(a)):
         return "unavailable-field"        # the previous VAM carried an 'unavailable' code for speed / heading / position
     if "speed" in a and "speed" in b and abs(a["speed"] - b["speed"]) > 0.5:
@@ -303,6 +312,45 @@ def _vam_kind(a: dict, b: dict) -> str:
     if is_position_report(a) and is_position_report(b) and gc_distance_m(a["lat"], a["lon"], b["lat"], b["lon"]) > 4.0:
         return "position"
     return "none"
+
+
+VAM_EPS = 1e-9
+_LAT_UNAV, _LON_UNAV, _SPEED_UNAV, _HEAD_UNAV = 900000001, 1800000001, 16383, 3601
+
+
+def _vam_branch(prev_vam: dict, cur: dict) -> str:
+    """Finding key of `vam-gap-min`: through which trigger a VAM can have been sent although less than T_GenVamMin had elapsed.
+
+    The service keeps as reference what the previous VAM *carried* (clause 6.4.1: "... lastly included in an individual VAM"):
+    referencePosition / 1e7 degrees, speedValue / 100 m/s, heading value / 10 degrees - including the 'unavailable' codes when
+    the report behind that VAM lacked the field.  The known defect (dynamics triggers are evaluated while LESS than T_GenVam has
+    elapsed) can therefore only send through a branch whose threshold is crossed *against the decoded previous VAM*:
+      position  - distance in degrees between the report and the carried position > 4 (as the service compares; in practice only
+                  reachable when the carried position is the unavailable code)
+      speed     - |speed - speedValue/100| > 0.5
+      heading   - |track - value/10| folded to 0..180 > 4
+    The key is the first such branch in the service's order of evaluation, or `unavailable-field` when that branch is crossed only
+    because the previous VAM carried the unavailable code of the element.  When no branch is crossed the VAM was sent for another
+    reason (elapsed-time branch or anything else): key `time-branch`."""
+    par = prev_vam["vam"]["vamParameters"]
+    rp = par["basicContainer"]["referencePosition"]
+    hf = par["vruHighFrequencyContainer"]
+    if is_position_report(cur):
+        d = ((cur["lat"] - rp["latitude"] / 10 ** 7) ** 2 + (cur["lon"] - rp["longitude"] / 10 ** 7) ** 2) ** 0.5
+        if d > 4.0 - VAM_EPS:
+            return "unavailable-field" if (rp["latitude"] == _LAT_UNAV or rp["longitude"] == _LON_UNAV) else "position"
+    if "speed" in cur:
+        sv = hf["speed"]["speedValue"]
+        if abs(cur["speed"] - sv / 100) > 0.5 - VAM_EPS:
+            return "unavailable-field" if sv == _SPEED_UNAV else "speed"
+    if "track" in cur:
+        hv = hf["heading"]["value"]
+        d = abs(cur["track"] - hv / 10.0) % 360.0
+        if d > 180.0:
+            d = 360.0 - d
+        if d > 4.0 - VAM_EPS:
+            return "unavailable-field" if hv == _HEAD_UNAV else "heading"
+    return "time-branch"
 
 
 def _judge_vam(sim, h: History, nominal_us: int, trace) -> None:
@@ -371,9 +419,14 @@ def _judge_vam(sim, h: History, nominal_us: int, trace) -> None:
                     if "time" in ra["tpv"] and "time" in rb["tpv"]:
                         d = parse_iso_ms(rb["tpv"]["time"]) - parse_iso_ms(ra["tpv"]["time"])
                         if 0 <= d < VAM_MIN_MS:
-                            sim.violate(ID, "vam-gap-min", kind,
-                                        f"consecutive VAMs from reports #{ra['i']} and #{rb['i']} whose timestamps are {d} ms apart "
-                                        f"(< T_GenVamMin 100 ms); dynamics change: {kind}", m["t"])
+                            if prev["msg"] is None:
+                                sim.probe("vam-gap-min-no-verdict:previous-vam-undecodable")      # no reference to classify against (C11)
+                            else:
+                                branch = _vam_branch(prev["msg"], rb["tpv"])
+                                sim.violate(ID, "vam-gap-min", branch,
+                                            f"consecutive VAMs from reports #{ra['i']} and #{rb['i']} whose timestamps are {d} ms apart "
+                                            f"(< T_GenVamMin 100 ms); trigger crossed against the previous VAM's content: {branch} "
+                                            f"(report-to-report change: {kind})", m["t"])
                         elif d < 0:
                             sim.probe("vam-report-time-decreased")
                         if prev["msg"] is not None and vam["generationDeltaTime"] < prev["msg"]["vam"]["generationDeltaTime"] and d < 60_000:
